@@ -968,8 +968,6 @@ val prover_run :
 
 val tree_at : nat -> node list -> nat -> cell option
 
-val index_of : node list -> nat -> nat list -> nat option
-
 val flatten : cell -> nat -> node list
 
 val ser_tree : cell -> sx
@@ -987,6 +985,8 @@ val sx_of_result : cell res option -> sx
 val run_multi : sx -> sx
 
 val run_conc : sx -> sx
+
+val run_viaboc : sx -> sx
 
 val bits_cmp : bits -> bits -> comparison
 
@@ -1446,7 +1446,7 @@ type pend_op = { p_op : nat; p_agent : agent_id; p_script : mop list;
 
 val msg_eqb : msg -> msg -> bool
 
-val index_of0 : msg -> msg list -> nat -> nat option
+val index_of : msg -> msg list -> nat -> nat option
 
 val send_all : strategy -> nat -> (nat -> n) -> nat -> state -> state * bool
 
